@@ -201,17 +201,18 @@ example : (indexOf genTable "StructureType".toList).map (fun c => (chain pydsdlH
 
 /-! ## 3. `get_source` -/
 
-/-- The user's template is loaded whenever a user directory has one of that name: the first such directory
-in search-path order, whatever the package contains. -/
-theorem C16_getSource_user_first (dirs : List Store) (pkg : Option Store) (t : Path)
-    (h : ∃ d ∈ dirs, (sfind d t).isSome = true) :
-    ∃ v, fsSource dirs t = some v ∧ getSource (some dirs) pkg t = some (.user, v) := by
-  have hv : ∃ v, fsSource dirs t = some v := by
+/-- The user's template is loaded whenever a user directory has a file of that name — however the request spells
+the name (`./x`, `a//x`, `/x`; canonical form `c`), whether or not a listing shows the file, whatever the package
+contains: the first such directory in search-path order. -/
+theorem C16_getSource_user_first (dirs : List Store) (pkg : Option Store) (t c : Path)
+    (hc : canonicalName t = some c) (h : ∃ d ∈ dirs, (sfind d c).isSome = true) :
+    ∃ v, fsSource dirs c = some v ∧ getSource (some dirs) pkg t = some (.user, v) := by
+  have hv : ∃ v, fsSource dirs c = some v := by
     induction dirs with
     | nil => obtain ⟨d, hd, _⟩ := h; cases hd
     | cons d ds ih =>
       simp only [fsSource]
-      cases hs : sfind d t with
+      cases hs : sfind d c with
       | some v => exact ⟨v, rfl⟩
       | none =>
         obtain ⟨d', hd', hsome⟩ := h
@@ -219,14 +220,39 @@ theorem C16_getSource_user_first (dirs : List Store) (pkg : Option Store) (t : P
         · subst h1; rw [hs] at hsome; cases hsome
         · exact ih ⟨d', h1, hsome⟩
   obtain ⟨v, hv⟩ := hv
-  exact ⟨v, hv, by simp [getSource, Option.bind, hv]⟩
+  exact ⟨v, hv, by simp [getSource, getSourceAt, hc, Option.bind, hv]⟩
 
 /-- Only when no user directory has the name is the built-in template loaded; with neither, `TemplateNotFound`. -/
-theorem C16_getSource_builtin_fallback (fs : Option (List Store)) (pkg : Option Store) (t : Path)
-    (h : fs.bind (fsSource · t) = none) :
-    getSource fs pkg t = (pkg.bind (sfind · t)).map fun v => (Origin.builtin, v) := by
-  simp only [getSource, h]
+theorem C16_getSource_builtin_fallback (fs : Option (List Store)) (pkg : Option Store) (t c : Path)
+    (hc : canonicalName t = some c) (h : fs.bind (fsSource · c) = none) :
+    getSource fs pkg t = (pkg.bind (sfind · c)).map fun v => (Origin.builtin, v) := by
+  simp only [getSource, getSourceAt, hc, h]
   cases pkg <;> rfl
+
+/-- Two spellings of one name are served from the same source; a name with a `..` piece is never served. -/
+theorem C16_getSource_spelling_irrelevant (fs : Option (List Store)) (pkg : Option Store) (t t' : Path) :
+    (canonicalName t = canonicalName t' → getSource fs pkg t = getSource fs pkg t') ∧
+    (canonicalName t = none → getSource fs pkg t = none) := by
+  constructor
+  · intro h; simp only [getSource, h]
+  · intro h; simp only [getSource, h]
+
+example : canonicalName "./a//b/./c.j2".toList = some "a/b/c.j2".toList ∧ canonicalName "/x.j2/".toList = some "x.j2".toList ∧
+    canonicalName "sub/../x.j2".toList = none ∧ canonicalName "a/..b/x".toList = some "a/..b/x".toList := by
+  decide
+
+/-- The stem a template is filed under is its name minus the LAST suffix only: for every name `s.x` (`s`, `x`
+non-empty, no dot in `x`) `Path.stem = s` and `Path.suffix = .x`, whatever dots `s` contains.  So `UnionType.orig.j2`
+is filed under `UnionType.orig` — it is nobody's template. -/
+theorem C16_stem_drops_last_suffix_only (s x : List Char) (hs : s ≠ []) (hx : x ≠ []) (hdot : '.' ∉ x) :
+    splitExt (s ++ '.' :: x) = (s, '.' :: x) :=
+  splitExt_last_suffix s x hs hx hdot
+
+example : templatesOf ".j2".toList ["UnionType.orig.j2".toList, "StructureType.j2.bak".toList, ".Any.j2".toList,
+      "UNIONTYPE.j2".toList, "sub/UnionType.j2".toList, "UnionType.j2/readme.txt".toList] =
+    [("UnionType.orig".toList, "UnionType.orig.j2".toList), (".Any".toList, ".Any.j2".toList),
+     ("UNIONTYPE".toList, "UNIONTYPE.j2".toList), ("UnionType".toList, "sub/UnionType.j2".toList)] := by
+  decide
 
 /-! ## 4. Instance tests over the generated table -/
 
